@@ -678,7 +678,8 @@ func (x *fnExec) proofOnly(o *Obl) bool {
 
 // proofUses returns the labels named by a "proof <label> uses ..." directive for this obligation, or nil.
 func (x *fnExec) proofUses(o *Obl) map[string]bool {
-	if x.C == nil || len(x.C.ProofUses) == 0 {
+	if x.C == nil || len(x.C.ProofUses) == 0 || x.unroll > 0 {
+		// in the bounded fall-back a refutation must be a model of *all* hypotheses: nothing is withheld
 		return nil
 	}
 	for lbl, ls := range x.C.ProofUses {
@@ -1243,7 +1244,7 @@ func (x *fnExec) discharge(cfg Config, filter func(o *Obl) bool) []*OblResult {
 			x.instLevel = 2
 			staged = []string{s4}
 		}
-		if nq > 0 && len(smt) > 400000 && !cfg.Fast {
+		if nq > 0 && len(smt) > 400000 && !cfg.Fast && cfg.Unroll == 0 {
 			// big query: cheaper attempts first: no instances of the quantified hypotheses, then instances at the goal's own terms
 			x.instLevel = 0
 			s0, _, _, _ := x.buildQuery(o, false, false)
@@ -1337,7 +1338,7 @@ func (x *fnExec) discharge(cfg Config, filter func(o *Obl) bool) []*OblResult {
 					mu.Unlock()
 					return
 				}
-				if k == 0 && !o.Smoke {
+				if k == 0 && !o.Smoke && cfg.Unroll == 0 {
 					// the cheap attempt failed: before the heavy ones, try the paths one by one
 					if rp, ok := pathSplit(); ok {
 						rp.Secs += rs.Secs
@@ -1369,13 +1370,13 @@ func (x *fnExec) discharge(cfg Config, filter func(o *Obl) bool) []*OblResult {
 					r.Output = "sat only with opaque remainder (over-approximation)\n" + r.Output
 				}
 			}
-			if r.Status != "unsat" && r.Status != "sat" && !o.Smoke && !triedPaths {
+			if r.Status != "unsat" && r.Status != "sat" && !o.Smoke && !triedPaths && cfg.Unroll == 0 {
 				if rp, ok := pathSplit(); ok {
 					rp.Secs += r.Secs
 					r = rp
 				}
 			}
-			if r.Status != "unsat" && r.Status != "sat" && !o.Smoke && !cfg.Fast {
+			if r.Status != "unsat" && r.Status != "sat" && !o.Smoke && !cfg.Fast && cfg.Unroll == 0 {
 				// case split on a merge condition of the goal: each half is simplified under the assumed value,
 				// which lets the instantiation patterns see through the ite terms of merged paths
 				conds := splitConds(o.goal, o.hyp)
